@@ -68,15 +68,31 @@ def _is_total(n, edges):
     return set(a for a, _ in edges) == set(range(n))
 
 
+def masks_of(n, step):
+    """All adjacency masks of n nodes (step 1), or a deterministic low-discrepancy sample of
+    about 2^(n*n)/step of them, sparse and dense graphs alike (the sample ANDs/ORs golden-ratio
+    hashes so that edge densities from ~1/4 to ~3/4 all occur)."""
+    bits = n * n
+    if step <= 1:
+        return range(1 << bits)
+    count = max(1, (1 << bits) // step)
+    full = (1 << bits) - 1
+
+    def gen():
+        for i in range(count):
+            a = (i * 0x9E3779B97F4A7C15 + 0x7F4A7C15) & full
+            b = (i * 0xC2B2AE3D27D4EB4F + 0x165667B1) & full
+            k = i % 3
+            yield (a & b) if k == 0 else ((a | b) if k == 1 else a)
+    return gen()
+
+
 def enum_shard(st, shard, nshards, payload):
     idx = 0
     for (n, step) in payload['scopes']:
-        for mask in range(0, 1 << (n * n), 1):
+        for mask in masks_of(n, step):
             idx += 1
             if idx % nshards != shard:
-                continue
-            if step > 1 and mask % step != (shard % step):
-                # sampled scope: every step-th graph (deterministic)
                 continue
             edges = G.edges_of_mask(n, mask)
             nt = nontrivial(n, edges)
@@ -116,6 +132,14 @@ def run(ctx):
                 'construction, random ones are counted by digest.')
     scopes = [(0, 1), (1, 1), (2, 1), (3, 1), (4, 1)]
     ctx.scopes = ['all digraphs with n<=4 nodes (1+2+16+512+65536 edge sets) x 6 presentations']
+    # beyond the exhaustive scope: deterministic samples of the 2^25 / 2^36 / 2^49 digraphs on
+    # 5 / 6 / 7 nodes (a defect may need a fifth node: two DFS trees plus a cross edge)
+    if ctx.thorough:
+        scopes += [(5, 40), (6, 1 << 17), (7, 1 << 31)]
+        ctx.scopes.append('samples: 2^25/40 digraphs on 5 nodes, 2^19 on 6 nodes, 2^18 on 7 nodes')
+    else:
+        scopes += [(5, 800), (6, 1 << 22), (7, 1 << 36)]
+        ctx.scopes.append('samples: 2^25/800 digraphs on 5 nodes, 2^14 on 6 nodes, 2^13 on 7 nodes')
     ctx.exhaustive = True
     f = core.run_sharded(ctx, enum_shard, {'scopes': scopes})
     if f is not None:
